@@ -267,12 +267,15 @@ def extract_weights(
 
 
 def _widen_integer_weights(weights: np.ndarray) -> np.ndarray:
-    """Integer weights of a narrow type as int64.
+    """Weights of a narrow type as int64 (integers) or float64 (floats).
 
-    Their sums and squares would wrap around in their own type (100**2 == 16 in int8).
+    Their sums and squares would wrap around or overflow in their own type
+    (100**2 == 16 in int8, 300.0**2 == inf in float16).
     """
     if weights.dtype.kind in "iu" and weights.dtype.itemsize < 8:
         return weights.astype(np.int64)
+    if weights.dtype.kind == "f" and weights.dtype.itemsize < 8:
+        return weights.astype(np.float64)
     return weights
 
 
